@@ -99,6 +99,7 @@ func c16(r *core.Report) {
 	c16AddFirst(r, adders)
 	c16VisitedCtx(r, adders)
 	c16EarlyExit(r)
+	c16CtxFlow(r)
 
 	units, _ := refUnits(p, "openapi3")
 	r.RunRule("C16.cover", "internalising reaches every reference position: for every path of fields from a unit to a field that can hold a $ref (same enumeration as C02.cover), the unit's deref function hands that field to the add*ToSpec of the position's wrapper (path items: to derefPaths); units without reference positions of their own need no walker", 29, func() {
@@ -346,20 +347,8 @@ func c16(r *core.Report) {
 				})
 				usesParent := parentObj == nil || operands[parentObj]
 				if !usesParent {
-					// a local computed from the parent flag by isExternalRef (pathIsExternal)
-					for o := range operands {
-						for _, as := range ff.Assigns(o) {
-							if call, ok := as.Rhs.(*ast.CallExpr); ok {
-								if cal := core.CalleeOf(info, call); cal != nil && cal.Name() == "isExternalRef" {
-									for _, a := range call.Args {
-										if id, ok := a.(*ast.Ident); ok && info.ObjectOf(id) == parentObj {
-											usesParent = true
-										}
-									}
-								}
-							}
-						}
-					}
+					// a local that inherits the parent flag: `x := parentIsExternal || ...`
+					usesParent = ctxInherits(info, ff, last, parentObj, 0)
 				}
 				if m.Name() == "InternalizeRefs" {
 					usesParent = true // top level: there is no parent
@@ -1077,4 +1066,92 @@ func c16EarlyExit(r *core.Report) {
 			core.Fail("no function found in internalize_refs.go")
 		}
 	})
+}
+
+// c16CtxFlow: "inside an external document" is inherited. Whatever a deref function hands down as
+// the context of a nested walk has to contain its own context: an object below an external object
+// is external whether or not it is itself a reference.
+func c16CtxFlow(r *core.Report) {
+	p := r.Prog
+	info := p.Pkg("openapi3").TypesInfo
+	r.RunRule("C16.ctxflow", "the external-document context is inherited: in every function of internalize_refs.go that has a boolean context parameter, each boolean argument it passes to a deref*/add* method of T has that parameter as a disjunct — directly (`isExternal || parentIsExternal`) or through a local variable defined as `parentIsExternal || ...` (passing it to isExternalRef is not enough: that function answers false for an object that is not itself a reference)", 20, func() {
+		for _, d := range p.AllDecls("openapi3") {
+			if d.Body == nil || d.Recv == nil || !strings.HasSuffix(p.Fset.Position(d.Pos()).Filename, "internalize_refs.go") {
+				continue
+			}
+			var ctx types.Object
+			for _, f := range d.Type.Params.List {
+				if b, ok := info.TypeOf(f.Type).Underlying().(*types.Basic); ok && b.Kind() == types.Bool {
+					for _, nm := range f.Names {
+						ctx = info.ObjectOf(nm)
+					}
+				}
+			}
+			if ctx == nil {
+				continue
+			}
+			ff := core.NewFuncFacts(p, info, d)
+			k := 0
+			ast.Inspect(d.Body, func(nd ast.Node) bool {
+				c, ok := nd.(*ast.CallExpr)
+				if !ok || len(c.Args) == 0 {
+					return true
+				}
+				f := core.CalleeOf(info, c)
+				if f == nil || f.Pkg() == nil || f.Pkg().Name() != "openapi3" {
+					return true
+				}
+				sig := f.Type().(*types.Signature)
+				if sig.Recv() == nil || sig.Params().Len() == 0 {
+					return true
+				}
+				last := sig.Params().At(sig.Params().Len() - 1)
+				if b, ok := last.Type().Underlying().(*types.Basic); !ok || b.Kind() != types.Bool {
+					return true
+				}
+				if !strings.HasPrefix(f.Name(), "deref") && !strings.HasPrefix(f.Name(), "add") {
+					return true
+				}
+				arg := c.Args[len(c.Args)-1]
+				k++
+				key := fmt.Sprintf("ctxflow:%s/%s#%d", core.FuncName(d), f.Name(), k)
+				if ctxInherits(info, ff, arg, ctx, 0) {
+					r.OK(key, p.Pos(c.Pos()), "the nested walk inherits the context")
+				} else {
+					r.Bad(key, p.Pos(c.Pos()), fmt.Sprintf("%s hands `%s` down to %s as the external-document context, and that value does not depend on its own context %s: below an object of an external document that is not itself a reference (a path item of an external callback) the walk continues as if in the root document, and `#/components/...` references of the external document are left pointing at components the root does not have", core.FuncName(d), core.ExprStr(arg), f.Name(), ctx.Name()))
+				}
+				return true
+			})
+		}
+	})
+}
+
+// ctxInherits: e is the context variable, a disjunction one side of which inherits it, or a local
+// variable every definition of which does.
+func ctxInherits(info *types.Info, ff *core.FuncFacts, e ast.Expr, ctx types.Object, depth int) bool {
+	if ctx == nil || depth > 4 {
+		return false
+	}
+	switch x := ast.Unparen(e).(type) {
+	case *ast.Ident:
+		o := info.ObjectOf(x)
+		if o == ctx {
+			return true
+		}
+		as := ff.Assigns(o)
+		if len(as) == 0 {
+			return false
+		}
+		for _, a := range as {
+			if a.Rhs == nil || !ctxInherits(info, ff, a.Rhs, ctx, depth+1) {
+				return false
+			}
+		}
+		return true
+	case *ast.BinaryExpr:
+		if x.Op == token.LOR {
+			return ctxInherits(info, ff, x.X, ctx, depth+1) || ctxInherits(info, ff, x.Y, ctx, depth+1)
+		}
+	}
+	return false
 }
